@@ -672,7 +672,7 @@ def _may_return_param(f, names):
 INPLACE_AUG = (ast.Add, ast.BitOr, ast.BitAnd, ast.Sub, ast.BitXor, ast.Mult)
 
 
-def alias_mutations(m: Module, fn, is_src, param_aliases=(), resolve=None, depth=0):
+def alias_mutations(m: Module, fn, is_src, param_aliases=(), resolve=None, depth=0, obj_methods=()):
     """Sites in `fn` where the object denoted by `is_src(expr)` - or a local name that may alias it - is
     changed in place: a mutator method, a subscript/slice store or delete, an in-place operator, or being
     passed to a helper of the same module/class that does one of these to its parameter.  May-alias
@@ -704,14 +704,15 @@ def alias_mutations(m: Module, fn, is_src, param_aliases=(), resolve=None, depth
     def scan_expr(node, al):
         for n in ast.walk(node):
             if isinstance(n, ast.Call):
-                if isinstance(n.func, ast.Attribute) and n.func.attr in flow.MUTATORS and denotes(n.func.value, al):
+                if isinstance(n.func, ast.Attribute) and (n.func.attr in flow.MUTATORS or n.func.attr in obj_methods) \
+                        and denotes(n.func.value, al):
                     sites.append((n, f"`{norm(n)[:70]}`"))
                 elif resolve is not None and depth < 3:
                     callee = resolve(n)
                     if callee is not None and callee is not fn:
                         passed = _passed_params(callee, n, lambda a: denotes(a, al))
                         if passed:
-                            for sub, how in alias_mutations(m, callee, lambda e: False, passed, resolve, depth + 1):
+                            for sub, how in alias_mutations(m, callee, lambda e: False, passed, resolve, depth + 1, obj_methods):
                                 sites.append((n, f"`{norm(n)[:50]}` -> {callee.name}: {how}"))
 
     def targets_of(st):
@@ -763,6 +764,8 @@ def alias_mutations(m: Module, fn, is_src, param_aliases=(), resolve=None, depth
                 for tt in (t.elts if isinstance(t, (ast.Tuple, ast.List)) else [t]):
                     if isinstance(tt, ast.Subscript) and denotes(tt.value, al):
                         sites.append((st, f"`{norm(st)[:70]}`"))
+                    if obj_methods and isinstance(tt, ast.Attribute) and denotes(tt.value, al):
+                        sites.append((st, f"attribute store `{norm(st)[:70]}`"))
                     if isinstance(st, ast.AugAssign) and isinstance(st.op, INPLACE_AUG) and denotes(tt, al):
                         sites.append((st, f"in-place `{norm(st)[:70]}`"))
             if isinstance(st, (ast.Assign, ast.AnnAssign)) and getattr(st, "value", None) is not None:
@@ -929,6 +932,65 @@ def rule_no_shared_state(ctx: Ctx, rid="C17.NO-SHARED-WRITES", modules=None, onl
                                 site=m.site(node), text=f"module mutate {norm(node)[:100]}")
     ctx.rep.ok(rid, "src/pyab_experiment (outside sly)", f"{nfun} functions scanned for shared-state writes")
     ctx.rep.floor("functions scanned for shared-state writes", nfun, floor if floor is not None else (25 if not modules else 2))
+
+
+def rule_mutable_defaults(ctx: Ctx, rid="C17.NO-SHARED-DEFAULTS", modules=None, accumulating_only=False):
+    """A parameter default is evaluated once, when the function is defined: a default that is a container or an object
+    with state, and that is then changed (directly, through an alias, or after being stored on self), is shared by every
+    call and every instance that did not pass its own."""
+    n = 0
+    for m in ctx.src.own_modules():
+        if modules and m.rel not in modules:
+            continue
+        for cname, c in list(m.classes().items()) + [(None, None)]:
+            fns = ([x for x in c.body if isinstance(x, (ast.FunctionDef, ast.AsyncFunctionDef))] if c is not None
+                   else list(m.functions().values()))
+            for fn in fns:
+                a = fn.args
+                pos = a.posonlyargs + a.args
+                pairs = list(zip(pos[len(pos) - len(a.defaults):], a.defaults)) + [(x, d) for x, d in zip(a.kwonlyargs, a.kw_defaults) if d is not None]
+                for arg, dflt in pairs:
+                    kind, methods = None, ()
+                    if isinstance(dflt, (ast.List, ast.Dict, ast.Set, ast.ListComp, ast.DictComp, ast.SetComp)) or \
+                            (isinstance(dflt, ast.Call) and dotted(dflt.func) in ("list", "dict", "set", "defaultdict", "collections.defaultdict", "deque")):
+                        kind = "container"
+                    elif isinstance(dflt, ast.Call) and dotted(dflt.func):
+                        m2, node = ctx.src.resolve_name(m, dotted(dflt.func).split(".")[0])
+                        if isinstance(node, ast.ClassDef):
+                            writers = set()
+                            for f2 in node.body:
+                                if isinstance(f2, (ast.FunctionDef, ast.AsyncFunctionDef)) and f2.name not in ("__init__", "__new__", "__post_init__"):
+                                    sn = f2.args.args[0].arg if f2.args.args else "self"
+                                    if any(isinstance(x, (ast.Assign, ast.AugAssign, ast.AnnAssign)) and any(
+                                            isinstance(t, ast.Attribute) and dotted(t.value) == sn
+                                            for t in (x.targets if isinstance(x, ast.Assign) else [x.target])) for x in ast.walk(f2)):
+                                        writers.add(f2.name)
+                            kind, methods = f"instance of {node.name}", tuple(sorted(writers)) or ("__no_method__",)
+                    if kind is None:
+                        continue
+                    if accumulating_only and kind != "container":
+                        continue      # sequential use (C11): an object that every use re-initialises carries nothing over
+                    n += 1
+                    sites = [(fn, x, how) for x, how in alias_mutations(m, fn, lambda e: False, {arg.arg}, resolver_for(m, c), obj_methods=methods)]
+                    # stored on self: follow the attribute through the methods of the class
+                    if c is not None:
+                        stored = {t.attr for x in ast.walk(fn) if isinstance(x, ast.Assign) and isinstance(x.value, ast.Name) and x.value.id == arg.arg
+                                  for t in x.targets if isinstance(t, ast.Attribute) and dotted(t.value) == "self"}
+                        for attr in stored:
+                            for f2 in [x for x in c.body if isinstance(x, (ast.FunctionDef, ast.AsyncFunctionDef))]:
+                                for x, how in alias_mutations(m, f2, lambda e, attr=attr: isinstance(e, ast.Attribute) and e.attr == attr
+                                                              and dotted(e.value) == "self", resolve=resolver_for(m, c), obj_methods=methods):
+                                    sites.append((f2, x, how))
+                    con = f"{m.rel}:{(cname + '.') if cname else ''}{fn.name}[{arg.arg}={norm(dflt)[:30]}]"
+                    if accumulating_only:
+                        sites = [s_ for s_ in sites if not any(k_ in s_[2] for k_ in (".clear()", "[:] ="))]
+                    if sites:
+                        f2, x, how = sites[0]
+                        ctx.rep.bad(rid, con, f"the default of `{arg.arg}` ({kind}) is one object for all calls, and {f2.name} changes it: {how}",
+                                    site=m.site(x), text=f"{fn.name} {arg.arg}={norm(dflt)[:60]}")
+                    else:
+                        ctx.rep.ok(rid, con, f"mutable default ({kind}) is never changed", site=m.site(fn))
+    ctx.rep.ok(rid, "src/pyab_experiment (outside sly)", f"{n} mutable parameter defaults found", nontrivial=False)
 
 
 def rule_value_keyed_caches(ctx: Ctx, rid="C01.NO-VALUE-KEYED-CACHE", modules=None, functions=None):
